@@ -194,6 +194,12 @@ class Body:
     # --- dominators (iterative, on non-unwind edges)
     @lru_cache(maxsize=None)
     def dominators(self):
+        if getattr(self, "_domsets", None) is not None:
+            return self._domsets
+        self._domsets = self._dominators()
+        return self._domsets
+
+    def _dominators(self):
         n = self.n
         reach = self.reachable(0)
         full = set(reach)
@@ -238,9 +244,52 @@ class Body:
         order.reverse()
         return order
 
+    def idoms(self):
+        """immediate dominators (Cooper-Harvey-Kennedy), cached; unwind edges are not followed (as in succs())"""
+        if getattr(self, "_idom", None) is not None:
+            return self._idom
+        order = self.rpo()
+        num = {b: i for i, b in enumerate(order)}
+        idom = {0: 0}
+        changed = True
+        while changed:
+            changed = False
+            for b in order:
+                if b == 0:
+                    continue
+                new = None
+                for p in self.preds(b):
+                    if p not in idom or p not in num:
+                        continue
+                    if new is None:
+                        new = p
+                    else:
+                        x, y = p, new
+                        while x != y:
+                            while num[x] > num[y]:
+                                x = idom[x]
+                            while num[y] > num[x]:
+                                y = idom[y]
+                        new = x
+                if new is not None and idom.get(b) != new:
+                    idom[b] = new
+                    changed = True
+        self._idom = idom
+        self._domnum = num
+        return idom
+
     def dominates(self, a, b):
-        d = self.dominators()
-        return b in d and a in d[b]
+        idom = self.idoms()
+        if b not in idom or a not in idom:
+            return False
+        num = self._domnum
+        x = b
+        while True:
+            if x == a:
+                return True
+            if x == 0 or num[x] < num[a]:
+                return False
+            x = idom[x]
 
     def all_paths_pass(self, targets, exits, start=0, avoid_edges=()):
         """True iff every path start->(any of exits) passes through a block in targets.
